@@ -28,6 +28,14 @@ What is mirrored from the Go code (`tlcp/handshake_client.go`, `tlcp/handshake_s
     `marshal()`, which returns the received bytes only when the decoder kept them (`raw`) —
     flag `decodedKeepRaw`; otherwise the hash covers `World.reenc`, a re-encoding of the parsed
     fields that forgets whatever the decoder skipped (`asMarshalled`).
+  * WHAT switches the read cipher state: only a ChangeCipherSpec record (flag `ccsOnlyByRecord`,
+    from the places where the source calls `c.in.changeCipherSpec()` / clears
+    `expectChangeCipherSpec`); otherwise — defect branch — a handshake record that arrives while
+    the ChangeCipherSpec is expected switches it by itself (`HS.skipCCS`, `Conn.implicitSwitch`).
+  * WHEN `handshake()` marks the connection complete: as its last step, behind the flush of the
+    last flight (flag `doneMarkedLast`); the transport may refuse writes (`Conn.wbroken`, set by
+    the attacker's `cut`), `handshake()` then returns that error; `Conn.panics` is the consistency
+    check at the end of `handshakeContext` (error on a connection marked complete, or the reverse).
 
 What is abstract: the *content* of honest messages (`World.say`: any function of the
 endpoint's history), the master secret each side derives (`World.master`), every decision the
@@ -36,7 +44,8 @@ CertificateRequest?, reject this message?), and the primitives (`Prims`: hash, P
 protection) of which only the symbolic laws listed as fields are used.
 
 The attacker is an arbitrary strategy: a function from the honest outputs so far (and its own
-past deliveries) to the next record delivered to either endpoint.
+past deliveries) to the next record delivered to either endpoint, and to which transports are
+closed by now (`Attacker.cut`).
 
 Core Lean only (linked into `oracle_c03`).
 -/
@@ -221,13 +230,28 @@ structure TFlags where
   /-- server `doFullHandshake` reads the client's Certificate / ClientKeyExchange with `nil`
   and adds them with `transcriptMsg` (datagram stack) instead of reading them with the hash -/
   sReadsViaMarshal : Bool
+  /-- the read side changes its cipher state (and stops expecting a ChangeCipherSpec) only when a
+  ChangeCipherSpec RECORD was received: every `c.in.changeCipherSpec()` of the package sits in
+  the `case recordTypeChangeCipherSpec` of `readRecordOrCCS` (datagram stack: or consumes the
+  `deferredCCS` note that case left), `expectChangeCipherSpec` is cleared only there.  When
+  `false` the model takes the defect branch `HS.skipCCS`: a handshake record that arrives while
+  the ChangeCipherSpec is expected (datagram stack: a record of the next epoch) switches the read
+  cipher by itself and is accepted — without any ChangeCipherSpec having been accepted. -/
+  ccsOnlyByRecord : Bool
+  /-- `handshake()` of both roles marks the connection complete (`handshakeStatus` / `hsState`)
+  exactly once, as a top-level statement behind every step that can fail (in particular behind
+  the write and the flush of the last flight), followed only by `return nil`.  When `false` the
+  model marks completion as soon as the handshake layer is through, BEFORE the last flight is
+  written (`Conn.sync`). -/
+  doneMarkedLast : Bool
 deriving Repr, DecidableEq
 
 /-- the transcript operations the theorems need -/
 def TFlags.sound (f : TFlags) : Bool :=
   f.cHelloAdded && f.cServerHelloAdded && f.cReadsHashed && f.cWritesHashed && f.cFinReadNil &&
   f.cFinAddedAfter && f.sHelloAdded && f.sWritesHashed && f.sReadsHashed && f.sCVReadNil &&
-  f.sCVAddedAfter && f.sFinReadNil && f.sFinAddedAfter && f.finFullCompare && f.decodedKeepRaw
+  f.sCVAddedAfter && f.sFinReadNil && f.sFinAddedAfter && f.finFullCompare && f.decodedKeepRaw &&
+  f.ccsOnlyByRecord
 
 /-- the record-layer guards of the stream stack -/
 def TFlags.recordStrict (f : TFlags) : Bool :=
@@ -485,11 +509,24 @@ def HS.onCCS (h : HS P) : HS P :=
   | .failed _ => h
   | _ => HS.fail h k.aUnexpected
 
-/-- states reachable by feeding any sequence of messages and ChangeCipherSpec signals -/
+/-- the implicit cipher switch (defect branch, taken only when `ccsOnlyByRecord = false`): the
+endpoint stops waiting for the ChangeCipherSpec and goes on to read the Finished although no
+ChangeCipherSpec was accepted — nothing is added to the history.  With the flag as the theorems
+need it this is the identity. -/
+def HS.skipCCS (h : HS P) : HS P :=
+  if f.ccsOnlyByRecord then h else
+  match h.ctl with
+  | .cCCS r => { h with ctl := .cFin r }
+  | .sCCS r => { h with ctl := .sFin r }
+  | _ => h
+
+/-- states reachable by feeding any sequence of messages and ChangeCipherSpec signals (and, in
+the defect branch, implicit cipher switches) -/
 inductive Reach : HS P → Prop where
   | init (r : Role) : Reach (HS.init k W r)
   | msg {h : HS P} (m : Msg) : Reach h → WellFramed m → Reach (HS.onMsg k f W h m)
   | ccs {h : HS P} : Reach h → Reach (HS.onCCS k h)
+  | skip {h : HS P} : Reach h → Reach (HS.skipCCS f h)
   | fail {h : HS P} (a : Nat) : Reach h → Reach (HS.fail h a)
 
 end machine
@@ -559,6 +596,10 @@ structure Conn (P : Prims) where
   flushed : Nat
   out : List Record
   status : Status
+  /-- the transport refuses writes (it was closed by the network): `write` / `flush` return its error -/
+  wbroken : Bool
+  /-- `handshakeStatus == 1` / `hsState == stateFinished`: what `handshakeComplete()` reports -/
+  marked : Bool
 
 section conn
 variable {P : Prims} (k : Codes) (f : TFlags) (W : World P)
@@ -584,25 +625,47 @@ def alertRecord (c : Conn P) (level desc : Nat) : Record :=
   | true, some ms => ⟨k.rtAlert, k.vers, P.wrap (P.kdf ms c.hs.role.isClient) c.outSeq k.rtAlert body⟩
   | _, _ => ⟨k.rtAlert, k.vers, body⟩
 
-/-- local failure with alert `a` (sent to the peer) -/
+/-- local failure with alert `a` (sent to the peer, unless the transport refuses writes) -/
 def Conn.failLocal (c : Conn P) (a : Nat) : Conn P :=
-  { c with out := c.out ++ [alertRecord k c k.aFatal a], status := .failed s!"local:{a}" }
+  { c with out := if c.wbroken then c.out else c.out ++ [alertRecord k c k.aFatal a], status := .failed s!"local:{a}" }
 
-/-- after the handshake layer moved: write what it sent, update the status -/
+/-- is there something this endpoint has to write among these history entries? -/
+def hasSent : List Entry → Bool
+  | [] => false
+  | .msg true _ :: _ => true
+  | .ccs true :: _ => true
+  | _ :: r => hasSent r
+
+/-- after the handshake layer moved: write what it sent, update the status.  `handshake()` marks
+the connection complete as its last step, behind the flush of the last flight
+(`doneMarkedLast`); in the defect branch the mark is set as soon as the handshake layer is
+through.  When the transport refuses the write, `handshake()` returns that error and nothing
+reaches the wire. -/
 def Conn.sync (c : Conn P) : Conn P :=
+  let c := if !f.doneMarkedLast && decide (c.hs.ctl = .done) then { c with marked := true } else c
+  if c.wbroken && hasSent (c.hs.log.drop c.flushed) then { c with status := .failed "closed" } else
   let c := Conn.flushEntries k c (c.hs.log.drop c.flushed)
   let hv := c.haveVers || (match c.hs.role with
     | .client => c.hs.log.length ≥ 2
     | .server => c.hs.log.length ≥ 1)
   let c := { c with haveVers := hv }
   match c.hs.ctl with
-  | .done => { c with status := .done }
+  | .done => { c with status := .done, marked := true }
   | .failed a => if c.status = .running then Conn.failLocal k c a else c
   | _ => c
 
+/-- the consistency check at the end of `handshakeContext`: it panics when `handshake()` returned
+an error on a connection that is marked complete, or returned nil on one that is not -/
+def Conn.panics (c : Conn P) : Bool :=
+  match c.status with
+  | .failed _ => c.marked
+  | .done => !c.marked
+  | .running => false
+
 def Conn.init (role : Role) : Conn P :=
-  Conn.sync k { hs := HS.init k W role, hand := [], haveVers := false, inOn := false, inSeq := 0,
-                outOn := false, outSeq := 0, retry := 0, flushed := 0, out := [], status := .running }
+  Conn.sync k f { hs := HS.init k W role, hand := [], haveVers := false, inOn := false, inSeq := 0,
+                  outOn := false, outSeq := 0, retry := 0, flushed := 0, out := [], status := .running,
+                  wbroken := false, marked := false }
 
 /-- `readHandshake` as long as complete messages are buffered -/
 def Conn.pump (c : Conn P) : Nat → Conn P
@@ -638,14 +701,14 @@ def Conn.onCCSRecord (c : Conn P) (data : Bytes) : Conn P :=
   if data ≠ [1] then Conn.failLocal k c k.aDecode
   else if f.ccsNeedsEmptyHand ∧ c.hand ≠ [] then Conn.failLocal k c k.aUnexpected
   else if f.ccsNeedsExpect ∧ ¬ c.hs.expectCCS then Conn.failLocal k c k.aUnexpected
-  else Conn.sync k { c with hs := HS.onCCS k c.hs, inOn := true, inSeq := 0 }
+  else Conn.sync k f { c with hs := HS.onCCS k c.hs, inOn := true, inSeq := 0 }
 
 /-- a handshake record -/
 def Conn.onHandshakeRecord (c : Conn P) (data : Bytes) : Conn P :=
   if data = [] ∨ (f.hsRefusedWhenCCSExpected ∧ c.hs.expectCCS) then Conn.failLocal k c k.aUnexpected
   else
     let c := { c with hand := c.hand ++ data, retry := 0 }
-    Conn.sync k (Conn.pump k f W c (c.hand.length + 1))
+    Conn.sync k f (Conn.pump k f W c (c.hand.length + 1))
 
 /-- the `switch typ` of `readRecordOrCCS`, during a handshake -/
 def Conn.dispatch (c : Conn P) (typ : Nat) (data : Bytes) : Conn P :=
@@ -672,12 +735,21 @@ def Conn.headerCheck (c : Conn P) (r : Record) : Option (Conn P) :=
   else if r.payload.length > k.maxCiphertext then some (Conn.failLocal k c k.aOverflow)
   else none
 
+/-- defect branch (`ccsOnlyByRecord = false`): a handshake record that arrives while the
+ChangeCipherSpec is expected and the handshake buffer is empty switches the read cipher state by
+itself — before the record is decrypted — and the endpoint no longer expects a ChangeCipherSpec -/
+def Conn.implicitSwitch (c : Conn P) (r : Record) : Conn P :=
+  if ¬ f.ccsOnlyByRecord ∧ c.hs.expectCCS ∧ r.typ = k.rtHS ∧ c.hand = [] then
+    { c with hs := HS.skipCCS f c.hs, inOn := true, inSeq := 0 }
+  else c
+
 /-- one record arrives (`readRecordOrCCS`) -/
 def Conn.deliver (c : Conn P) (r : Record) : Conn P :=
   if c.status ≠ .running then c else
   match Conn.headerCheck k f c r with
   | some c' => c'
   | none =>
+    let c := Conn.implicitSwitch k f c r
     match Conn.openRecord c r with
     | none => Conn.failLocal k c k.aBadMac
     | some (data, seq) => Conn.dispatch k f W { c with inSeq := seq } r.typ data
@@ -688,6 +760,9 @@ def Conn.deliver (c : Conn P) (r : Record) : Conn P :=
 and the attacker's own past deliveries to the next delivery (`true` = to the client), or stop -/
 structure Attacker where
   next : List (Role × Record) → List (Role × Record) → Option (Role × Record)
+  /-- closing a transport: from the same knowledge, is the transport of this endpoint closed now
+  (its writes fail from here on; what was delivered before stays readable)?  Default: never. -/
+  cut : List (Role × Record) → List (Role × Record) → Role → Bool := fun _ _ _ => false
 
 structure Global (P : Prims) where
   c : Conn P
@@ -697,13 +772,15 @@ structure Global (P : Prims) where
   delivered : List (Role × Record)
 
 def Global.init : Global P :=
-  let c := Conn.init k W .client
-  let s := Conn.init k W .server
+  let c := Conn.init k f W .client
+  let s := Conn.init k f W .server
   { c := c, s := s, outs := c.out.map (fun r => (Role.client, r)) ++ s.out.map (fun r => (Role.server, r)),
     delivered := [] }
 
 /-- one move of the attacker -/
 def Global.step (att : Attacker) (g : Global P) : Option (Global P) :=
+  let g := { g with c := { g.c with wbroken := g.c.wbroken || att.cut g.outs g.delivered .client },
+                    s := { g.s with wbroken := g.s.wbroken || att.cut g.outs g.delivered .server } }
   match att.next g.outs g.delivered with
   | none => none
   | some (.client, r) =>
